@@ -226,6 +226,52 @@ ASSUMPTIONS = (
 )
 
 
+# ---------------------------------------------------------------- K2c: comments that look like suppression directives
+_TOKEN = "sha256" + "d2a8f07c" * 8          # a long unbroken run of letters and digits (a checksum used as the "reason")
+DIRECTIVE_LINES = {
+    ".py": ("TABLE = load('blob.bin')  # noqa: %s.", "TABLE = load('blob.bin')  # noqa:%s-", "import os  # type: ignore[%s.", "import os  # type: ignore  # %s;",
+            "import os  # pylint: disable=%s;", "x = eval('1')  # nosec %s.", "y = 3975  # thailint: ignore[%s", "y = 3975  # thailint: ignore %s.",
+            "# thailint: ignore-start %s.", "# dry: ignore-block %s."),
+    ".ts": ("const a = load('blob');  // eslint-disable-line %s.", "// eslint-disable-next-line %s;", "// @ts-ignore %s.", "// @ts-expect-error: %s.",
+            "const y = 3975;  // thailint: ignore %s.", "/* eslint-disable %s. */"),
+}
+_SUB = ("import sys, json\nfrom pathlib import Path\nfrom src.orchestrator.core import Orchestrator\n"
+        "d = Path(sys.argv[1])\nvs = Orchestrator(project_root=d).lint_files(sorted(d.glob('src/*')))\n"
+        "print(json.dumps(sorted({Path(v.file_path).name for v in vs})))\n")
+
+
+def h_directive_like_comments(ctx):
+    """A comment that starts like a suppression directive and goes on with a long token, or a long run of blanks, in a file
+    next to a healthy one: the run (a process of its own, killed after 40 s) ends, exits normally and still reports the
+    healthy file."""
+    import subprocess
+    import sys
+    ext = ctx.pick("extension", tuple(DIRECTIVE_LINES))
+    line = ctx.pick("line", DIRECTIVE_LINES[ext])
+    filler = ctx.pick("filler", ("long-token", "long-token-twice", "blanks-then-text"))
+    text = {"long-token": _TOKEN, "long-token-twice": _TOKEN + " " + _TOKEN, "blanks-then-text": "E501" + " " * 6000 + "x"}[filler]
+    d = Path(tempfile.mkdtemp(prefix="c11dir-"))
+    try:
+        (d / ".git").mkdir()
+        (d / "src").mkdir()
+        (d / "src" / "healthy.py").write_text(triggers.T["magic.py"][3])
+        body = ["def f(a):", "    return a"] if ext == ".py" else ["function f(a) {", "  return a;", "}"]
+        (d / "src" / ("odd" + ext)).write_text("\n".join(body + [line % text] + ["# thailint: ignore-end" if "ignore-start" in line else ""]) + "\n")
+        env = dict(os.environ, PYTHONPATH=os.environ.get("VERIF_REPO", "/repo"))
+        try:
+            p = subprocess.run([sys.executable, "-c", _SUB, str(d)], capture_output=True, text=True, env=env, timeout=40)
+            done, out, code = True, p.stdout.strip(), p.returncode
+        except subprocess.TimeoutExpired:
+            done, out, code = False, "", None
+    finally:
+        shutil.rmtree(d, True)
+    ctx.cover("ran")
+    ctx.require("run-terminates", done, line=line[:40], filler=filler)
+    if done:
+        ctx.require("run-exits-normally", code == 0, code=code, line=line[:40])
+        ctx.require("healthy-file-still-reported", "healthy.py" in out, out=out[:100])
+
+
 def obligations(tier):
     _TIER["t"] = tier
     return [
@@ -233,6 +279,12 @@ def obligations(tier):
            functions=["Orchestrator.lint_files/lint_directory/_safe_check_rule", "FileLintContext.file_content", "detect_language", "every rule's check() on the offending file", "CLI commands (in-process)"],
            bounds="forked: %d pathological contents x 6 extensions x {file list, directory, 6 CLI commands}; nothing symbolic" % len(BAD),
            timeout=900, workers=14, must_cover=("ran",)),
+        Ob(name="K2c-directive-like-comments-with-long-tokens", engine="pathex", harness=h_directive_like_comments,
+           functions=["lazy_ignores PythonIgnoreDetector / TypeScriptIgnoreDetector patterns", "directive_utils.INLINE_JUSTIFICATION_PATTERN", "ignore.py / rule_matcher regexes",
+                      "every rule's own directive lookups", "Orchestrator.lint_files (in a process of its own)"],
+           bounds="forked: %d directive-like comment lines (py / ts) x 3 fillers (a 70-character token, two of them, 6000 blanks then text); each run in its own "
+                  "process with a 40 s limit" % sum(len(v) for v in DIRECTIVE_LINES.values()),
+           timeout=900, workers=12, must_cover=("ran",)),
         Ob(name="K2b-read-faults-at-symbolic-call-index", engine="pathex", harness=h_read_faults,
            functions=["FileLintContext.file_content", "language_detector._detect_from_shebang/_read_first_line", "ignore._read_file_first_lines", "Orchestrator.lint_files"],
            bounds="victim file (6) x 4 documented read errors x failing from the k-th read on, k symbolic in [1,6]",
